@@ -398,7 +398,8 @@ V('th3-empty', ['C16'], GH, "        if h.unsure or h.end <= h.beg:", "        i
 V('cm2-unanchored', ['C16'], 'yalafi/shell/utils.py',
   "    m = re.search(r'\\A\\\\[A-Za-z]+', latex[offset:])", "    m = re.search(r'\\\\[A-Za-z]+', latex[offset:])", 'CM2')
 V('cm2-skip', ['C18'], SH,
-  "    return cmdline.skip and re.search(r'\\A' + cmdline.skip + r'\\Z', fn)", "    return cmdline.skip and re.match(cmdline.skip, fn)", 'CM2')
+  "    return cmdline.skip and re.search(r'\\A(?:' + cmdline.skip + r')\\Z', fn)", "    return cmdline.skip and re.match(cmdline.skip, fn)", 'CM2')
+V('rx7-ungrouped', ['C18'], SH, "    return cmdline.skip and re.search(r'\\A(?:' + cmdline.skip + r')\\Z', fn)", "    return cmdline.skip and re.search(r'\\A' + cmdline.skip + r'\\Z', fn)", 'RX7')
 V('ps5-lazy', ['C17'], T2, "    lines = f.readlines()\n    f.close()\n    return lines", "    lines = f.readlines()\n    f.close()\n    return filter(str.strip, lines)", 'PS5')
 V('uk5-filter', ['C19'], P, "    def get_unknowns(self):\n        return self.unknowns",
   "    def get_unknowns(self):\n        return [n for n in self.unknowns if n not in self.the_macros]", 'UK5')
